@@ -6,8 +6,9 @@ None of this edits /repo.  What is patched, and why:
   the order in which the subscriber tasks are created follows id() (allocator
   dependent).  The replacement is the same algorithm over a list whose order is
   a recorded draw of the run's scheduler PRNG.
-* the name ``set`` in pyairtouch.comms.socket / at4.api / at5.api - subscriber
-  sets hold bound methods (pointer hashes).  An insertion-ordered set with the
+* the name ``set`` in pyairtouch.comms.socket / at4.api / at5.api / comms.discovery -
+  subscriber sets hold bound methods (pointer hashes), the discovery response set holds
+  dataclasses of strings (PYTHONHASHSEED dependent order).  An insertion-ordered set with the
   same API makes iteration order a function of the history.
 * registry singletons - the packet id counter is process global.
 * pyairtouch.comms.discovery.socket - replaced by an inert fake module.
@@ -170,7 +171,7 @@ def install() -> None:
     _saved["tasks.as_completed"] = asyncio.tasks.as_completed
     asyncio.as_completed = sim_as_completed
     asyncio.tasks.as_completed = sim_as_completed
-    for m in (pa.comms.socket, pa.at4.api, pa.at5.api):
+    for m in (pa.comms.socket, pa.at4.api, pa.at5.api, pa.comms.discovery):
         if "set" in m.__dict__ and m.__dict__["set"] is not OrderedSet:
             raise SimHarnessError(f"{m.__name__} defines its own name 'set'")
         m.set = OrderedSet
@@ -193,7 +194,7 @@ def uninstall() -> None:
     pa = _mods()
     asyncio.as_completed = _saved["as_completed"]
     asyncio.tasks.as_completed = _saved["tasks.as_completed"]
-    for m in (pa.comms.socket, pa.at4.api, pa.at5.api):
+    for m in (pa.comms.socket, pa.at4.api, pa.at5.api, pa.comms.discovery):
         if m.__dict__.get("set") is OrderedSet:
             del m.set
     pa.comms.discovery.socket = _saved["discovery.socket"]
